@@ -4,7 +4,9 @@ mod engine;
 mod gen;
 mod model;
 mod p_kmer;
+mod p_minfile;
 mod p_min;
+mod p_count;
 mod p_file;
 mod p_io;
 mod p_tables;
@@ -186,6 +188,8 @@ fn main() {
         }
         "C05" => p_file::run_files("C05", eff_tier, seed, &model, corpus_lines, &work),
         "C14" => p_file::run_files("C14", eff_tier, seed, &model, corpus_lines, &work),
+        "C07" => p_count::run_c07(eff_tier, seed, &model, corpus_lines, &work),
+        "C10" => p_minfile::run_c10(eff_tier, seed, &model, corpus_lines, &work),
         "C06" => p_io::run_c06(eff_tier, seed, &model, corpus_lines, &work),
         "C09" => p_min::run_c09(eff_tier, seed, &model, corpus),
         "C18" => p_min::run_c18(eff_tier, seed, &model, corpus),
